@@ -10,6 +10,7 @@ public:
     void Reset() {
         ready = false;
         data = 0;
+        disable_interrupt = 0;
     }
 
     void Send(u16 data) {
